@@ -577,6 +577,35 @@ fn wide_entries_keep_their_capacity(rep: &mut Report) {
             );
         }
     }
+    // a capacity above the default (65536) set BEFORE the naming options: every option of the
+    // builder must survive the ones set after it
+    {
+        let cap = 70_000usize;
+        let seen = Arc::new(Mutex::new(Vec::new()));
+        let counts = Counts::default();
+        let (producer, writer) = BackgroundQueueBuilder::new()
+            .capacity(cap)
+            .metrics_recorder_local::<dyn metrics_024::Recorder, _>(counts.clone())
+            .flush_interval(std::time::Duration::from_secs(7))
+            .thread_name("vh-writer")
+            .metric_name("vh-queue")
+            .__verif_build_unstarted::<IdStream, Tag>(IdStream(seen.clone()));
+        for id in 0..(cap + 5) as u64 {
+            producer.push(Tag(id));
+        }
+        writer.shut_down(true);
+        let seen = seen.lock().unwrap().clone();
+        let overflows = counts.0.lock().unwrap().get("metrique_queue_overflows").copied().unwrap_or(0);
+        runs.push(json!({"capacity": cap, "options_set_after_capacity": ["metrics_recorder_local", "flush_interval", "thread_name", "metric_name"], "appended": cap + 5, "reached_the_stream": seen.len(), "overflow_counter": overflows}));
+        let expect: Vec<u64> = (5..(cap + 5) as u64).collect();
+        if seen != expect || overflows != 5 {
+            rep.violation(
+                "writer:capacity-not-the-configured-one",
+                format!("capacity({cap}) followed by recorder / flush_interval / thread_name / metric_name, {} appended to a stalled writer: {} reached the stream (expected the newest {cap}), overflow counter {overflows} (expected 5)", cap + 5, seen.len()),
+                json!({"capacity": cap, "appended": cap + 5, "reached_the_stream": seen.len(), "overflow_counter": overflows}),
+            );
+        }
+    }
     rep.set("writer_model_wide_entries", json!(runs));
 }
 
